@@ -17,6 +17,9 @@
 
 #include "hex.hpp"
 #include "util.hpp"
+#ifdef HEX_VERIF
+#include <functional>
+#endif
 
 // An assembler for the Hex instruction set, based on xhexb.x and with
 // inspiration from the LLVM Kaleidoscope tutorial:
@@ -726,6 +729,13 @@ public:
 // Code generation.
 //===---------------------------------------------------------------------===//
 
+#ifdef HEX_VERIF
+// Verification hook: called at the end of every pass of CodeGen::resolveLabels with the
+// directives as laid out by that pass, whether it was the label placement pass, whether
+// anything changed, and the total size.
+inline std::function<void(const std::vector<std::unique_ptr<Directive>> &, bool, bool, int)> verifPassObserver;
+#endif
+
 class CodeGen {
 
   std::vector<std::unique_ptr<Directive>> &program;
@@ -817,6 +827,11 @@ class CodeGen {
         directive->setByteOffset(byteOffset);
         byteOffset += directive->getSize();
       }
+#ifdef HEX_VERIF
+      if (verifPassObserver) {
+        verifPassObserver(program, placeLabelsOnly, changed, byteOffset);
+      }
+#endif
       placeLabelsOnly = false;
     }
     // Absolute references are word addresses.
